@@ -2,26 +2,11 @@
   Round-trip, fourth layer: FETCH attributes (msg-att), the attribute list, FETCH responses, and the
   untagged-response wrapper; plus the simple untagged data responses.
 -/
-import ImapVerif.Proofs.RTFlags
+import ImapVerif.Proofs.RTBody3
 
 open Bytes Parser Grammar
 
 namespace RT
-
-/-! ### rejecting a keyword alternative -/
-
-theorem kwBind_err {β : Type} (t : Bytes) (f : Unit → Parser β) (u : Bytes) (m : List Bool) (r : Bytes)
-    (h : mismatch t u = true) : (tagNoCase t >>= f) (spell u m ++ r) = .err := by
-  show Parser.bindP (tagNoCase t) f (spell u m ++ r) = .err
-  unfold Parser.bindP
-  rw [tagNoCase_mismatch t u m r h]
-
-theorem map_err {α β : Type} (p : Parser α) (g : α → β) (i : Bytes) (h : p i = .err) : Parser.map p g i = .err := by
-  unfold Parser.map; rw [h]
-
-theorem mapRes_err {α β : Type} (p : Parser α) (g : α → Option β) (i : Bytes) (h : p i = .err) :
-    Parser.mapRes p g i = .err := by
-  unfold Parser.mapRes; rw [h]
 
 theorem msgAttBodySection_err (u m r) (h : mismatch (b!"BODY") u = true) :
     msgAttBodySection (spell u m ++ r) = .err := by unfold msgAttBodySection; exact kwBind_err _ _ u m r h
@@ -52,6 +37,54 @@ theorem msgAttGmailLabels_err (u m r) (h : mismatch (b!"X-GM-LABELS ") u = true)
     msgAttGmailLabels (spell u m ++ r) = .err := by
   unfold msgAttGmailLabels gmailLabelList; exact map_err _ _ _ (kwBind_err _ _ u m r h)
 
+/-! ### `BODY` as a prefix of `BODYSTRUCTURE ` and of `BODY ` -/
+
+theorem spell_append (a b : Bytes) (m : List Bool) :
+    spell (a ++ b) m = spell a m ++ spell b (m.drop a.length) := by
+  induction a generalizing m with
+  | nil => cases m <;> simp [spell]
+  | cons c cs ih =>
+    cases m with
+    | nil => simp [spell, spell_nil]
+    | cons k ks => simp [spell, ih]
+
+theorem spell_cons (c : UInt8) (t : Bytes) (m : List Bool) :
+    ∃ c', spell (c :: t) m = c' :: spell t m.tail ∧ (c' = c ∨ c' = flipCase c) := by
+  cases m with
+  | nil => exact ⟨c, by simp [spell, spell_nil], Or.inl rfl⟩
+  | cons k ks => cases k <;> simp [spell]
+
+theorem section_err (x : UInt8) (r : Bytes) (h : (x == 91) = false) : section_ (x :: r) = .err := by
+  simp [section_, Bind.bind, Parser.bindP, char, h]
+
+theorem msgAttBodySection_err_structure (m : List Bool) (r : Bytes) :
+    msgAttBodySection (spell (b!"BODYSTRUCTURE ") m ++ r) = .err := by
+  have hsp : spell (b!"BODYSTRUCTURE ") m = spell (b!"BODY") m ++ spell (b!"STRUCTURE ") (m.drop 4) :=
+    spell_append (b!"BODY") (b!"STRUCTURE ") m
+  obtain ⟨c', hc', hcc⟩ := spell_cons 83 (b!"TRUCTURE ") (m.drop 4)
+  unfold msgAttBodySection
+  show Parser.bindP (tagNoCase (b!"BODY")) _ _ = .err
+  unfold Parser.bindP
+  rw [hsp, List.append_assoc, tagNoCase_spell (b!"BODY") m _ trivial]
+  show Parser.bindP section_ _ _ = .err
+  unfold Parser.bindP
+  have : spell (b!"STRUCTURE ") (m.drop 4) = c' :: spell (b!"TRUCTURE ") (m.drop 4).tail := hc'
+  rw [this, List.cons_append, section_err c' _ (by rcases hcc with rfl | rfl <;> decide)]
+
+theorem msgAttBodySection_err_body (m : List Bool) (r : Bytes) :
+    msgAttBodySection (spell (b!"BODY ") m ++ r) = .err := by
+  have hsp : spell (b!"BODY ") m = spell (b!"BODY") m ++ spell (b!" ") (m.drop 4) :=
+    spell_append (b!"BODY") (b!" ") m
+  obtain ⟨c', hc', hcc⟩ := spell_cons 32 [] (m.drop 4)
+  unfold msgAttBodySection
+  show Parser.bindP (tagNoCase (b!"BODY")) _ _ = .err
+  unfold Parser.bindP
+  rw [hsp, List.append_assoc, tagNoCase_spell (b!"BODY") m _ trivial]
+  show Parser.bindP section_ _ _ = .err
+  unfold Parser.bindP
+  have : spell (b!" ") (m.drop 4) = c' :: spell [] (m.drop 4).tail := hc'
+  rw [this, List.cons_append, section_err c' _ (by rcases hcc with rfl | rfl <;> decide)]
+
 /-! ### attributes -/
 
 /-- the wire forms of the fetch attributes covered so far (keyword in any letter case) -/
@@ -74,6 +107,11 @@ inductive EncAttr : AttributeValue → Bytes → Prop
       EncAttr (.uid n) (spell (b!"UID ") m ++ e)
   | gmailMsgId (m : List Bool) (n : Nat) (e : Bytes) : n < 2 ^ 64 → EncNumber n e →
       EncAttr (.gmailMsgId n) (spell (b!"X-GM-MSGID ") m ++ e)
+  | bodyStructure (m : List Bool) (b : BodyStructure) (e : Bytes) : EncBody 33 b e →
+      EncAttr (.bodyStructure b) (spell (b!"BODYSTRUCTURE ") m ++ e)
+  /-- the non-extensible form `BODY (...)` yields the same value kind -/
+  | body (m : List Bool) (b : BodyStructure) (e : Bytes) : EncBody 33 b e →
+      EncAttr (.bodyStructure b) (spell (b!"BODY ") m ++ e)
   | flags (m : List Bool) (vs : List Bytes) (e : Bytes) : EncList EncFlagPerm vs e →
       EncAttr (.flags vs) (spell (b!"FLAGS ") m ++ e)
   | gmailLabels (m : List Bool) (vs : List Bytes) (e : Bytes) : EncList EncLabel vs e →
@@ -241,6 +279,19 @@ theorem msgAtt_enc (v : AttributeValue) (e : Bytes) (h : EncAttr v e) :
     · intro rest _; rw [List.append_assoc]; exact msgAttBody_err _ _ _ (by decide)
     · intro rest _; rw [List.append_assoc]; exact msgAttBodyStructure_err _ _ _ (by decide)
     · intro rest _; rw [List.append_assoc]; exact msgAttBodySection_err _ _ _ (by decide)
+  | bodyStructure m b e he =>
+    refine Parses.altR (Parses.altL ?_) ?_
+    · unfold msgAttBodyStructure
+      refine Parses.bind (tagNoCase_spell _ m) ?_ (fun _ _ => trivial)
+      exact Parses.bind' (body_enc b e he _) (Parses.pure _ _) (fun _ h => h) (by simp)
+    · intro rest _; rw [List.append_assoc]; exact msgAttBodySection_err_structure m _
+  | body m b e he =>
+    refine Parses.altR (Parses.altR (Parses.altL ?_) ?_) ?_
+    · unfold msgAttBody
+      refine Parses.bind (tagNoCase_spell _ m) ?_ (fun _ _ => trivial)
+      exact Parses.bind' (body_enc b e he _) (Parses.pure _ _) (fun _ h => h) (by simp)
+    · intro rest _; rw [List.append_assoc]; exact msgAttBodyStructure_err _ _ _ (by decide)
+    · intro rest _; rw [List.append_assoc]; exact msgAttBodySection_err_body m _
   | flags m vs e he =>
     refine Parses.altR (Parses.altR (Parses.altR (Parses.altR (Parses.altR (Parses.altL ?_) ?_) ?_) ?_) ?_) ?_
     · unfold msgAttFlags
